@@ -6,6 +6,7 @@ import vlib
 def run(tier):
     chk = vlib.Check("C15", tier)
     thorough = tier == "thorough"
+    chk.model("MCGeom", what="GeomCore on integers, 595k lattice cases: the triangle hit point lies on the line and in the plane, barycentric numerators sum to the denominator and recombine the vertices into the hit point, a line aimed at v0 has coordinates (1,0,0); the sphere quadratic equals |pos + t dir - c|^2 - r^2; |w.(u x v)|^2 <= |segment|^2 |u x v|^2 with equality exactly for the common perpendicular; parallel lines: |seg x u| independent of the points")
     chk.model("MCLinAlg", what="polynomial definitions shared with C05: cross product perpendicular to its operands, Lagrange identity, triple product")
     exe = vlib.compile_harness("rec_geom", ["rec_geom.cpp"])
     w = chk.work
